@@ -400,3 +400,173 @@ Section Histories.
     exists w'', wstep burst w' (WMsg ci connected MHeartbeat draws) = Done (w'', just RHeartbeat) /\ w_agent w'' = w_agent w'.
   Proof. intros es w w' ci connected draws _. cbn [wstep handle]. eexists. split; reflexivity. Qed.
 End Histories.
+
+(* ------------------------------------------------------------------ C05: the sessions gauge counts the live sessions, along every history *)
+Lemma del_session_nodup l ss : NoDup (map s_lseid ss) -> NoDup (map s_lseid (del_session l ss)).
+Proof.
+  induction ss as [|s ss IH]; intros H; cbn [del_session]; [constructor|]. inversion H as [|? ? Hnin H']; subst.
+  destruct (s_lseid s =? l); [apply IH; exact H'|]. cbn [map]. constructor; [|apply IH; exact H'].
+  intros Hin. apply Hnin. apply in_map_iff in Hin. destruct Hin as (x & Hx & Hi). apply in_del_session in Hi. rewrite <- Hx. apply in_map. tauto.
+Qed.
+Lemma del_session_length l ss s : NoDup (map s_lseid ss) -> find_session l ss = Some s ->
+  S (length (del_session l ss)) = length ss.
+Proof.
+  induction ss as [|x ss IH]; intros Hn Hf; [discriminate|]. cbn [find_session del_session] in *. inversion Hn as [|? ? Hnin Hn']; subst.
+  destruct (s_lseid x =? l) eqn:E.
+  - apply N.eqb_eq in E. cbn [length]. f_equal. rewrite del_session_absent; [reflexivity|]. rewrite <- E. exact Hnin.
+  - cbn [length]. f_equal. apply IH; assumption.
+Qed.
+Lemma replace_session_lseids s ss : map s_lseid (replace_session s ss) = map s_lseid ss.
+Proof.
+  unfold replace_session. rewrite map_map. apply map_ext_in. intros x _. destruct (s_lseid x =? s_lseid s) eqn:E; [apply N.eqb_eq in E; auto|reflexivity].
+Qed.
+
+Section Gauge.
+  Variable burst : N -> N -> N -> N.
+
+  Lemma handle_counts a c connected m draws a' c' o :
+    handle burst a c connected m draws = Done (a', c', o) ->
+    NoDup (map s_lseid (c_sessions c)) -> N.of_nat (length (c_sessions c)) <= a_gauge a ->
+    a_gauge a' + N.of_nat (length (c_sessions c)) = a_gauge a + N.of_nat (if o_shutdown o then 0 else length (c_sessions c')) /\
+    NoDup (map s_lseid (c_sessions c')).
+  Proof.
+    intros H Hn Hg. destruct m; cbn [handle] in H.
+    - inversion H; subst. cbn. split; [lia|exact Hn].
+    - split_all H; inversion H; subst; cbn; (split; [lia|exact Hn]).
+    - destruct (do_shutdown a c) as [[a1 c1] cm] eqn:Hd. inversion H; subst. unfold do_shutdown in Hd.
+      destruct (shutdown_sessions a (c_sessions c)) as [a2 cm2] eqn:Hs. inversion Hd; subst.
+      destruct (shutdown_sessions_reclaims _ _ _ _ Hn Hs) as (_ & G & _). cbn [o_shutdown c_sessions]. split; [rewrite G; lia|constructor].
+    - split_all H; inversion H; subst; cbn; (split; [lia|exact Hn]).
+    - destruct o as [r cmds ms sd]. destruct r as [r|].
+      2:{ pose proof (handle_reply_matches burst a c connected (MEst nodeid cpfseid pdrs fars qers) draws _ _ _ H) as Hm. cbn in Hm. destruct Hm as (? & ? & ? & ? & ? & Hm). discriminate. }
+      destruct r as [| | | |sx cause nx ux crx| |];
+        try (pose proof (handle_reply_matches burst a c connected (MEst nodeid cpfseid pdrs fars qers) draws _ _ _ H) as Hm; cbn in Hm; destruct Hm as (? & ? & ? & ? & ? & Hm); discriminate).
+      destruct (N.eq_dec cause CAUSE_OK) as [->|Hne].
+      + destruct (est_accepted burst _ _ _ _ _ _ _ _ _ _ _ _ _ _ _ _ _ H) as (l & s & -> & Hnz & _ & Hnin & Hf & Hl & _ & _ & _ & _ & -> & Hgg & _).
+        edestruct (est_accepted_store burst) as (Hs & _ & _); [exact H|exact Hf|].
+        cbn [o_shutdown]. rewrite Hs, Hgg. cbn [length map]. split; [lia|]. constructor; [rewrite Hl; exact Hnin|exact Hn].
+      + edestruct (est_rejected burst) as (_ & _ & Hc & Hgg & _); [exact H| |].
+        { intros s0 n0 u0 cr0 Hr. cbn [o_reply] in Hr. inversion Hr. contradiction. }
+        assert (sd = false) as -> by (clear -H; unfold handle_est in H; split_all H; inversion H; reflexivity).
+        subst c'. cbn [o_shutdown]. rewrite Hgg. split; [lia|exact Hn].
+    - unfold handle_mod in H. cbv zeta in H.
+      destruct (find_session seid (c_sessions c)) as [s0|] eqn:Ef; [|inversion H; subst; cbn; split; [lia|exact Hn]].
+      split_all H; inversion H; subst; cbn [o_shutdown a_gauge c_sessions];
+        (split; [unfold replace_session; rewrite map_length; lia|rewrite replace_session_lseids; exact Hn]).
+    - unfold handle_del in H. destruct (find_session seid (c_sessions c)) as [s|] eqn:Ef; [|inversion H; subst; cbn; split; [lia|exact Hn]].
+      destruct (release_ips (a_pool a) seid (view (s_pdrs s))) as [pl [|]]; inversion H; subst; cbn [o_shutdown a_gauge c_sessions].
+      + pose proof (del_session_length _ _ _ Hn Ef) as Hl. split; [lia|apply del_session_nodup; exact Hn].
+      + split; [lia|exact Hn].
+    - unfold handle_report_rsp in H.
+      destruct cause as [[|cz]|]; try (inversion H; subst; cbn; split; [lia|exact Hn]).
+      destruct (cz =? CAUSE_NOTFOUND); [|inversion H; subst; cbn; split; [lia|exact Hn]].
+      destruct (find_session seid (c_sessions c)) as [s|] eqn:Ef; [|inversion H; subst; cbn; split; [lia|exact Hn]].
+      destruct (end_session a s) as [a1 cm] eqn:He. inversion H; subst. cbn [o_shutdown c_sessions].
+      destruct (end_session_reclaims _ _ _ _ He) as [_ G]. pose proof (del_session_length _ _ _ Hn Ef) as Hl.
+      split; [rewrite G; lia|apply del_session_nodup; exact Hn].
+    - inversion H; subst. cbn. split; [lia|exact Hn].
+    - inversion H; subst. cbn. split; [lia|exact Hn].
+  Qed.
+End Gauge.
+
+Definition sess_of (l : list (N * conn)) : list session := flat_map (fun kc => c_sessions (snd kc)) l.
+
+Lemma put_conn_length ci c' l : NoDup (map fst l) ->
+  (length (sess_of (put_conn ci c' l)) + length (c_sessions (get_conn ci l)) = length (sess_of l) + length (c_sessions c'))%nat.
+Proof.
+  unfold sess_of. induction l as [|[k c] l IH]; intros Hn; cbn -[N.eqb]; [rewrite app_nil_r; lia|].
+  inversion Hn as [|? ? Hnin Hn']; subst. destruct (k =? ci) eqn:E; cbn -[N.eqb]; rewrite ?app_length; [lia|].
+  specialize (IH Hn'). lia.
+Qed.
+Lemma drop_conn_length ci l : NoDup (map fst l) ->
+  (length (sess_of (drop_conn ci l)) + length (c_sessions (get_conn ci l)) = length (sess_of l))%nat.
+Proof.
+  unfold sess_of. induction l as [|[k c] l IH]; intros Hn; cbn -[N.eqb]; [lia|].
+  inversion Hn as [|? ? Hnin Hn']; subst. destruct (k =? ci) eqn:E; cbn -[N.eqb]; rewrite ?app_length.
+  - apply N.eqb_eq in E. subst k.
+    assert (drop_conn ci l = l) as ->.
+    { clear -Hnin. induction l as [|[k2 c2] l IH]; [reflexivity|]. cbn -[N.eqb]. destruct (k2 =? ci) eqn:E2.
+      - exfalso. apply Hnin. left. apply N.eqb_eq in E2. exact E2.
+      - f_equal. apply IH. intros H. apply Hnin. right. exact H. }
+    lia.
+  - specialize (IH Hn'). lia.
+Qed.
+Lemma get_conn_in ci l : In ci (map fst l) -> In (ci, get_conn ci l) l.
+Proof.
+  induction l as [|[k c] l IH]; [intros []|]. cbn -[N.eqb]. intros [H|H].
+  - subst. rewrite N.eqb_refl. left. reflexivity.
+  - destruct (k =? ci) eqn:E; [apply N.eqb_eq in E; subst; left; reflexivity|right; apply IH; exact H].
+Qed.
+Lemma in_put_conn ci c' l kc : In kc (put_conn ci c' l) -> kc = (ci, c') \/ In kc l.
+Proof.
+  induction l as [|[k c] l IH]; cbn -[N.eqb]; [intros [H|[]]; left; auto|].
+  destruct (k =? ci); cbn -[N.eqb]; intros [H|H]; auto. destruct (IH H); auto.
+Qed.
+Lemma in_drop_conn ci l kc : In kc (drop_conn ci l) -> In kc l.
+Proof.
+  induction l as [|[k c] l IH]; cbn -[N.eqb]; [auto|].
+  destruct (k =? ci); cbn -[N.eqb]; [intros H; right; apply IH; exact H|intros [H|H]; auto].
+Qed.
+
+Section GaugeWorld.
+  Variable burst : N -> N -> N -> N.
+
+  Record gauge_inv (w : world) : Prop := {
+    gi_keys : NoDup (map fst (w_conns w));
+    gi_lseid : forall kc, In kc (w_conns w) -> NoDup (map s_lseid (c_sessions (snd kc)));
+    gi_gauge : a_gauge (w_agent w) = N.of_nat (length (all_sessions w)) }.
+
+  Definition restart_ok (e : wevent) : bool := match e with WRestart a0 => a_gauge a0 =? 0 | _ => true end.
+
+  Lemma conn_nodup w ci : gauge_inv w -> NoDup (map s_lseid (c_sessions (get_conn ci (w_conns w)))).
+  Proof.
+    intros [Hk Hl _]. destruct (in_dec N.eq_dec ci (map fst (w_conns w))) as [Hin|Hnin].
+    - apply (Hl (ci, get_conn ci (w_conns w))). apply get_conn_in. exact Hin.
+    - rewrite get_conn_absent by exact Hnin. constructor.
+  Qed.
+  Lemma conn_le w ci : gauge_inv w -> N.of_nat (length (c_sessions (get_conn ci (w_conns w)))) <= a_gauge (w_agent w).
+  Proof.
+    intros G. destruct G as [Hk _ Hg]. rewrite Hg. unfold all_sessions. fold (sess_of (w_conns w)).
+    pose proof (drop_conn_length ci (w_conns w) Hk). lia.
+  Qed.
+
+  Lemma wstep_gauge w e w' o : gauge_inv w -> restart_ok e = true -> wstep burst w e = Done (w', o) -> gauge_inv w'.
+  Proof.
+    intros G Hr H. pose proof (conn_nodup w) as Hcn. pose proof (conn_le w) as Hcl.
+    destruct e as [ci connected m draws|ci|a0]; cbn [wstep] in H.
+    - destruct (handle burst (w_agent w) (get_conn ci (w_conns w)) connected m draws) as [[[a' c'] res]|] eqn:Hh; [|discriminate].
+      inversion H; subst; clear H.
+      destruct (handle_counts burst _ _ _ _ _ _ _ _ Hh (Hcn ci G) (Hcl ci G)) as [Hc Hn'].
+      destruct G as [Hk Hl Hg]. destruct (o_shutdown o).
+      + constructor; cbn [w_conns w_agent].
+        * apply drop_keys_nodup. exact Hk.
+        * intros kc Hin. apply Hl. eapply in_drop_conn. exact Hin.
+        * unfold all_sessions in *. cbn [w_conns]. fold (sess_of (drop_conn ci (w_conns w))). fold (sess_of (w_conns w)) in Hg.
+          pose proof (drop_conn_length ci (w_conns w) Hk). lia.
+      + constructor; cbn [w_conns w_agent].
+        * apply put_keys_nodup. exact Hk.
+        * intros kc Hin. destruct (in_put_conn _ _ _ _ Hin) as [->|Hin']; [exact Hn'|apply Hl; exact Hin'].
+        * unfold all_sessions in *. cbn [w_conns]. fold (sess_of (put_conn ci c' (w_conns w))). fold (sess_of (w_conns w)) in Hg.
+          pose proof (put_conn_length ci c' (w_conns w) Hk). lia.
+    - destruct (do_shutdown (w_agent w) (get_conn ci (w_conns w))) as [[a1 c1] cm] eqn:Hd. inversion H; subst; clear H.
+      unfold do_shutdown in Hd. destruct (shutdown_sessions (w_agent w) (c_sessions (get_conn ci (w_conns w)))) as [a2 cm2] eqn:Hs. inversion Hd; subst.
+      destruct (shutdown_sessions_reclaims _ _ _ _ (Hcn ci G) Hs) as (_ & Gg & _). specialize (Hcl ci G).
+      destruct G as [Hk Hl Hg]. constructor; cbn [w_conns w_agent].
+      + apply drop_keys_nodup. exact Hk.
+      + intros kc Hin. apply Hl. eapply in_drop_conn. exact Hin.
+      + unfold all_sessions in *. cbn [w_conns]. fold (sess_of (drop_conn ci (w_conns w))). fold (sess_of (w_conns w)) in Hg.
+        pose proof (drop_conn_length ci (w_conns w) Hk). lia.
+    - inversion H; subst. cbn [restart_ok] in Hr. apply N.eqb_eq in Hr. constructor; cbn; [constructor|intros kc []|exact Hr].
+  Qed.
+
+  (* along EVERY history - accepted and rejected establishments and modifications, deletions, report responses,
+     releases, teardowns, restarts, garbage - the gauge equals the number of live sessions *)
+  Theorem gauge_invariant : forall es w w',
+    gauge_inv w -> forallb restart_ok es = true -> wrun burst w es = Done w' -> gauge_inv w'.
+  Proof.
+    induction es as [|e es IH]; intros w w' G Hr H; cbn [wrun forallb] in *; [inversion H; subst; exact G|].
+    apply andb_true_iff in Hr. destruct Hr as [Hr1 Hr2].
+    destruct (wstep burst w e) as [[w1 o]|] eqn:Hs; [|discriminate].
+    apply (IH w1 w'); auto. eapply wstep_gauge; eauto.
+  Qed.
+End GaugeWorld.
